@@ -787,6 +787,8 @@ def run_inputs(pool, cases, rng, timeout, known, drv, budget=None):
     else:
       jobs.append((c[1], i % 5 == 3, i % 4 == 2))
   cases = [(c[0], c[1]) for c in cases]
+  if os.environ.get("VERIF_C15_NOBUDGET"):   # triage runs: same cases, no wall-clock cut
+    budget = None
   recs = pool.run(jobs, timeout, budget=budget)
   retried = 0
   for i, rec in enumerate(recs):
